@@ -243,6 +243,41 @@ def spec_matrices(spec, sl):
     return U, D
 
 
+def independent_rhs(spec, sl):
+    """dx/dt = (S + S_d) rate(x, t) written out from the reaction definitions alone (no bioscrape code involved): mass action
+    k prod x^m, the Hill family, general rates evaluated as Python arithmetic.  -> f(t, x)"""
+    import math
+    U, D = spec_matrices(spec, sl)
+    S = (U + D).astype(float)
+    pv = {k: float(v) for k, v in spec["params"].items()}
+    fn = {"Heaviside": lambda z: 1.0 if z > 0 else 0.0, "abs": abs, "Abs": abs, "max": max, "Max": max, "min": min, "Min": min,
+          "exp": math.exp, "log": math.log}
+
+    def rates(t, x):
+        env = dict(pv); env.update({s_: float(v_) for s_, v_ in zip(sl, x)}); env["t"] = float(t); env["volume"] = 1.0
+        out = []
+        for r in spec["reactions"]:
+            pr = r["prop"]
+            ty = pr["type"]
+            if ty == "massaction":
+                a = env[pr["k"]] if isinstance(pr["k"], str) else float(pr["k"])
+                for s_ in r["reactants"]:
+                    if s_ != "":
+                        a *= env[s_]
+                out.append(a)
+            elif ty == "general":
+                out.append(float(eval(pr["rate"].replace("^", "**"), {"__builtins__": {}}, dict(env, **fn))))
+            else:
+                k, K, n = (env[pr[q]] if isinstance(pr[q], str) else float(pr[q]) for q in ("k", "K", "n"))
+                u = (env[pr["s1"]] / K) ** n
+                a = k * u / (1 + u) if "positive" in ty else k / (1 + u)
+                if "proportional" in ty:
+                    a *= env[pr["d"]]
+                out.append(a)
+        return np.array(out, dtype=float)
+    return lambda t, x: S @ rates(t, x)
+
+
 def sim_job(M, kind, times, seed, dt, t0=0.0, safe=False, num="float", x0=None, vol0=1.0, volmodel=None,
             qlen=None, qdt=None, fuel=2000000, want_log=False, spec=None):
     """Driver job describing the interface a simulator sees, dumped from the real Model."""
